@@ -264,6 +264,22 @@ def compile_jobs(ctx, tier_programs, configs_per_program):
             jobs.append({"id": jid, "src": src, "opts": {"sm_minor": sm, "bypass": byp, "bindmap": bm}})
             meta[jid] = ("corpus:" + name, src, sm, byp, bm)
             jid += 1
+    # several helpers that stay separate LLVM functions (scalar parameters and result, control flow in the body), all
+    # called: the order in which functions, their types and their blocks are emitted must not depend on map iteration;
+    # compiled `repeat` more times (a map-ordered emission of 4 functions repeats one order with probability 1/24)
+    for k, stage in enumerate(("fragment", "compute")):
+        hs = "".join("fn h%d(a: f32, b: f32) -> f32 { var r = a * %d.5; if (a > b) { r = r + b; } else { r = r - %d.0; } "
+                     "for (var i = 0; i < %d; i++) { if (r > 100.0) { break; } r = r * 1.5; } return r; }\n" % (n, n + 1, n, n + 2) for n in range(4))
+        if stage == "fragment":
+            src = hs + ("@fragment fn main(@location(0) v: vec4<f32>) -> @location(0) vec4<f32> {\n"
+                        "  return vec4<f32>(h0(v.x, v.y), h1(v.y, v.z), h2(v.z, v.w), h3(v.w, v.x) + h1(v.x, v.x));\n}\n")
+        else:
+            src = ("@group(0) @binding(0) var<storage, read_write> o: array<f32, 8>;\n" + hs
+                   + "@compute @workgroup_size(1) fn main() {\n  o[0] = h3(o[1], o[2]) + h2(o[2], o[3]);\n  o[4] = h1(o[5], o[6]) * h0(o[6], o[7]);\n}\n")
+        for sm, byp in ((0, False), (6, True)):
+            jobs.append({"id": jid, "src": src, "opts": {"sm_minor": sm, "bypass": byp, "bindmap": 0, "repeat": 8}})
+            meta[jid] = ("hand:four_helpers_%s" % stage, src, sm, byp, 0)
+            jid += 1
     sizes = [2, 5, 10, 20, 40, 80, 150, 300, 600]
     for i in range(tier_programs):
         r = rng.fork("g%d" % i)
